@@ -193,9 +193,9 @@ def shard_main(ctx):
     enumerate_fixed(ctx)
     if ctx.failures:
         return
-    if not ctx.explore("faults3d", cases(), run_case, ctx.n(80, 2000)):
+    if not ctx.explore("faults3d", cases(), run_case, ctx.n(250, 3000)):
         return
-    ctx.explore("faults2d", cases(two_d=True), run_case, ctx.n(30, 500))
+    ctx.explore("faults2d", cases(two_d=True), run_case, ctx.n(80, 800))
 
 
 def replay(case, ctx):
